@@ -147,17 +147,17 @@ shape!(Heap, HeapVec, HeapSlice, HeapSliceMut, HeapRef, HeapRefMut, HeapPtr, Hea
 soa_struct!(clone, pub struct Inner { pub x: Tk<0>, pub y: B1 });
 shape!(Inner, InnerVec, InnerSlice, InnerSliceMut, InnerRef, InnerRefMut, InnerPtr, InnerPtrMut, drops=false, [(x leaf Tk<0>), (y leaf B1)]);
 
-// struct-level destructors (no `soa_derive(Clone)`: `resize` does not compile for a `Drop` struct, DESIGN §8 #8)
-soa_struct!(noclone, pub struct DrH { pub a: Tk<0>, pub h: Hp });
+// struct-level destructors (with the Clone API since /repo 72750cf; before, `resize` did not compile for a `Drop` struct)
+soa_struct!(clone, pub struct DrH { pub a: Tk<0>, pub h: Hp });
 impl Drop for DrH { fn drop(&mut self) { struct_dropped(self.a.id) } }
 shape!(DrH, DrHVec, DrHSlice, DrHSliceMut, DrHRef, DrHRefMut, DrHPtr, DrHPtrMut, drops=true, [(a leaf Tk<0>), (h leaf Hp)]);
 
-soa_struct!(noclone, pub struct DrN { pub a: Tk<0>, #[nested_soa] pub n: Inner });
+soa_struct!(clone, pub struct DrN { pub a: Tk<0>, #[nested_soa] pub n: Inner });
 impl Drop for DrN { fn drop(&mut self) { struct_dropped(self.a.id) } }
 shape!(DrN, DrNVec, DrNSlice, DrNSliceMut, DrNRef, DrNRefMut, DrNPtr, DrNPtrMut, drops=true, [(a leaf Tk<0>), (n nested Inner)]);
 
 // a `Drop` struct made of plain data only: no field needs dropping, the struct still does
-soa_struct!(noclone, pub struct DrP { pub a: Pl, pub b: Pl });
+soa_struct!(clone, pub struct DrP { pub a: Pl, pub b: Pl });
 impl Drop for DrP { fn drop(&mut self) { struct_dropped(self.a.0) } }
 shape!(DrP, DrPVec, DrPSlice, DrPSliceMut, DrPRef, DrPRefMut, DrPPtr, DrPPtrMut, drops=true, [(a leaf Pl), (b leaf Pl)]);
 
